@@ -63,6 +63,9 @@ private:
 
     class SegmentedPacket final
     {
+#ifdef ASAM_CMP_VERIF
+        friend struct VerifAccess;
+#endif
         using SegmentType = MessageHeader::SegmentType;
 
     public:
